@@ -110,7 +110,9 @@ Theorem fixer_checked_return_passes s A S s0e top rest :
   0 <= A -> A + 28 < W64 ->
   exists s', exec_at VFixer L A (firstn 5 fixer_epi_call) s = Next s' /\ pc s' = A + 24 /\
     exec VFixer L s' (Jalr 0 1 0) = Next (set_pc s' ((u64 (top + 0) / 2) * 2)) /\
-    cfi s' = rest /\ rget s' 2 = S /\ rget s' 8 = s0e /\ rget s' 1 = top.
+    cfi s' = rest /\ rget s' 2 = S /\ rget s' 8 = s0e /\ rget s' 1 = top /\
+    mem s' = mem s /\ dom s' = dom s /\
+    (forall r, 0 <= r -> r <> 1 -> r <> 2 -> r <> 8 -> r <> 28 -> rget s' r = rget s r).
 Proof.
   intros Hpc Hsp Hal Hr Hlo Hhi Hl0 Hl1 H0 Hcfi Htop HA0 HA1.
   destruct (fixer_epi_prefix s A S s0e top top rest Hpc Hsp Hal Hr Hlo Hhi Hl0 Hl1 H0 Htop Hcfi)
@@ -122,6 +124,7 @@ Proof.
   split; [rewrite u64_small by lia; lia|].
   split.
   { cbn [exec]. rewrite rset_zero. rewrite rget_set_pc, R1. reflexivity. }
-  split; [exact C4|]. rewrite !rget_set_pc. auto.
+  split; [exact C4|]. rewrite !rget_set_pc. split; [exact R2|]. split; [exact R8|]. split; [exact R1|].
+  split; [exact M4|]. split; [exact D4|]. intros r Hr0 N1 N2 N8 N28. rewrite rget_set_pc. apply Ro; assumption.
 Qed.
 End FT.
